@@ -538,6 +538,80 @@ def rule_R19(body: str, log, where):
     return body
 
 
+def rule_R8(body: str, log, where):
+    """let-chains: `if C1 && let P = E && C2 { B } [else { X }]`  ->  nested `if C1 { if let P = E { if C2 { B } else { X } } else { X } } else { X }`
+    (the language's own meaning: conditions are evaluated left to right, the else block runs when any of them fails). `else if` chains
+    and `while` with let-chains are left alone."""
+    for _ in range(12):
+        mask = mask_rust(body)
+        done = True
+        for m in re.finditer(r"\bif\b", mask):
+            # condition up to the `{` at depth 0
+            k, depth = m.end(), 0
+            while k < len(mask):
+                ch = mask[k]
+                if ch in "([":
+                    depth += 1
+                elif ch in ")]":
+                    depth -= 1
+                elif ch == "{" and depth == 0:
+                    break
+                elif ch in ";}" and depth == 0:
+                    k = len(mask)
+                    break
+                k += 1
+            if k >= len(mask):
+                continue
+            cond_m = mask[m.end():k]
+            if not re.search(r"&&\s*let\b|\blet\b[^=]*=[^=].*&&", cond_m, re.S):
+                continue
+            # not an `else if` (keep it simple) and not inside a match guard
+            pre = mask[:m.start()].rstrip()
+            if pre.endswith("else") or pre.endswith("=>"):
+                continue
+            # split at top-level `&&`
+            parts, depth, last = [], 0, 0
+            j = 0
+            while j < len(cond_m):
+                ch = cond_m[j]
+                if ch in "([{":
+                    depth += 1
+                elif ch in ")]}":
+                    depth -= 1
+                elif depth == 0 and cond_m.startswith("&&", j):
+                    parts.append((last, j))
+                    last = j + 2
+                    j += 1
+                j += 1
+            parts.append((last, len(cond_m)))
+            if len(parts) < 2:
+                continue
+            cond_t = body[m.end():k]
+            items = [cond_t[a:b].strip() for a, b in parts]
+            b_open, b_close = k, match_brace(mask, k)
+            then_blk = body[b_open:b_close + 1]
+            rest = mask[b_close + 1:]
+            me = re.match(r"\s*else\s*\{", rest)
+            else_blk, end = None, b_close + 1
+            if me:
+                e_open = b_close + 1 + me.end() - 1
+                e_close = match_brace(mask, e_open)
+                else_blk, end = body[e_open:e_close + 1], e_close + 1
+            elif re.match(r"\s*else\b", rest):
+                continue            # else-if chain: not handled
+            new = then_blk
+            for it in reversed(items):
+                new = "{ if " + it + " " + new + (" else " + else_blk if else_blk else "") + " }"
+            new = new[1:-1].strip()      # outermost braces off: it is an `if` expression again
+            body = body[:m.start()] + new + body[end:]
+            log.append({"rule": "R8", "where": where, "before": "if " + " && ".join(items)[:120] + " { .. }", "after": "nested if / if let"})
+            done = False
+            break
+        if done:
+            break
+    return body
+
+
 def apply_rewrite(body, rule, frm, to, allocc, log, where):
     """exact-text rewrite. A missing anchor is NOT fatal: the rule is skipped and logged (`missed`), the real text
     goes to Verus unrewritten and either verifies, fails (violation) or is rejected by the front end (undecided).
@@ -1173,6 +1247,8 @@ def generate(unit, template_path, canary=False, extra_fns=()):
                 newsig += " " + wh.replace("\n", " ")
             # --- body rewrites
             body = rule_R4(body, g.rewrites, where)
+            if re.search(r"&&\s*let\b|\bif\s+let\b[^{;]*&&", mask_rust(body)):
+                body = rule_R8(body, g.rewrites, where)
             if re.search(r"\bmatch\b", mask_rust(body)) and re.search(r"\bif\b[^{};]*=>", mask_rust(body)):
                 body = rule_R19(body, g.rewrites, where)
             if re.search(r"\(\s*ref\s+\w+\s*\)\s*=", mask_rust(body)):
